@@ -1,12 +1,12 @@
 #!/bin/sh
-# usage: keepseed5.sh <PROP> <A|B>  - round 5: validates a sub-agent's seeded change in /tmp/wt/r2-<PROP> (suite unchanged with it, demo fails
-#   with it and passes without) and stores it under /verif/seeded/<PROP>-<I|J>/
-prop=$1; x=$2; wt=/tmp/wt/r5-$prop
-case $x in A) y=I;; B) y=J;; *) exit 2;; esac
+# usage: keepseed7.sh <PROP> <A|B>  - round 8: validates a sub-agent's seeded change in /tmp/wt/r8-<PROP> (suite unchanged with it, demo fails
+#   with it and passes without) and stores it under /verif/seeded/<PROP>-<M|N>/
+prop=$1; x=$2; wt=/tmp/wt/r8-$prop
+case $x in A) y=M;; B) y=N;; *) exit 2;; esac
 cd $wt || exit 2
 git checkout -q -- .
 git apply "$wt/mut$x.diff" || { echo "$prop-$y: patch does not apply in worktree"; exit 2; }
-suite=$(PYTHONPATH=$wt /venv/bin/python -m pytest -q -p no:cacheprovider 2>&1 | tail -1)
+suite=$(PYTHONPATH=$wt /venv/bin/python -m pytest -q -p no:cacheprovider --ignore=demoA.py --ignore=demoB.py 2>&1 | tail -1)
 PYTHONPATH=$wt /venv/bin/python demo$x.py >/tmp/wt/demo_with.out 2>&1; rc_with=$?
 git checkout -q -- .
 PYTHONPATH=$wt /venv/bin/python demo$x.py >/tmp/wt/demo_without.out 2>&1; rc_without=$?
